@@ -640,13 +640,28 @@ func translatorValidation(eng *sym.Engine, p *Property, insts []Instance, tier s
 		bf := filepath.Join(filepath.Dir(ov), "batch-"+strings.ReplaceAll(pkg, "/", "_")+".json")
 		b, _ := json.Marshal(batchFile{Cases: cases})
 		os.WriteFile(bf, b, 0o644)
-		out, _ := goTestNative(ov, pkg, bf)
+		// The native side runs real goroutines (generator/receiver) and a real file system; a
+		// disagreement must be reproducible to count (up to three native runs per batch).
+		var out string
 		got := map[int]string{}
-		for _, line := range strings.Split(out, "\n") {
-			var i int
-			var v string
-			if n, _ := fmt.Sscanf(line, "VERIF-CASE %d %s", &i, &v); n == 2 {
-				got[i] = v
+		for attempt := 0; attempt < 3; attempt++ {
+			out, _ = goTestNative(ov, pkg, bf)
+			got = map[int]string{}
+			for _, line := range strings.Split(out, "\n") {
+				var i int
+				var v string
+				if n, _ := fmt.Sscanf(line, "VERIF-CASE %d %s", &i, &v); n == 2 {
+					got[i] = v
+				}
+			}
+			agree := true
+			for i := range cases {
+				if got[i] != symRes[key{pkg, i}] {
+					agree = false
+				}
+			}
+			if agree {
+				break
 			}
 		}
 		for i := range cases {
